@@ -45,3 +45,5 @@ echo DONE | tee -a $OUT
 run D16 9329cef "C13"
 run D17 2efc289 "C07 C13 C01"
 run D18 5854f53 "C15"
+run D19 f57f829 "C09 C07"
+run D20 cd37895 "C07 C09"
